@@ -18,7 +18,7 @@ ASSUMES = ["allele tuples are sorted ascending (the documented precondition)",
            "symbolic alleles/indices are concretised path by path by the solver (table lookups are a C boundary); _comb is symbolic in n for k <= 2",
            "int64 side condition: every intermediate of _comb is checked against 2^63 by a solver query on the path"]
 BOUNDS = {"quick": "comb / comb_with_replacement on the grid n <= 110, k <= 22 (table, its borders and beyond); ploidy 12-13 x <= 3 alleles; ploidy 1..4 x alleles <= 8 (all genotypes/indices); beyond the table: ploidy 2 x alleles 99..130; _comb symbolic n in [0, 2^31] for k <= 2; k in 3..5 with n in [97,140] solver-enumerated",
-          "thorough": "ploidy 1..4 x alleles <= 12, ploidy 5 x alleles <= 10, ploidy 6 x alleles <= 8; beyond the table ploidy 2..3 x alleles 99..140; k in 3..8 with n in [92,160], k in 12..16 with n in [k,70]"}
+          "thorough": "ploidy 1..4 x alleles <= 12, ploidy 5 x alleles <= 10, ploidy 6 x alleles <= 8; ploidy 12-13 x 3 alleles, ploidy 16 and 20 x 2 alleles; beyond the table ploidy 2..3 x alleles 99..140; k in 3..8 with n in [92,160], k in 12..16 with n in [k,70]"}
 OUTSIDE = "mchap.combinatorics.count_unique_genotypes (scipy.special.comb float code: not encodable); ploidy/alleles beyond the bound"
 TASKS_PER_CHILD = 8
 
@@ -47,8 +47,11 @@ def configs(tier):
     # the whole table region and its borders, both argument orders (ploidy >= 12 lives here)
     for k0 in range(0, 21 if quick else 41, 3):
         out.append(dict(group="grid", klo=k0, khi=k0 + 2, nmax=110 if quick else 130))
+    # (ploidy 20 with three alleles -- 231 genotypes at ~5 s of solver time each -- and ploidy 16 with three alleles were the long
+    # tail of the thorough tier, > 20 min on their own: sized out; ploidy 16 and 20 keep the two-allele configurations)
     for P in ((12, 13) if quick else (12, 13, 16, 20)):
-        out.append(dict(group="index", P=P, top=2))
+        if P <= 13:
+            out.append(dict(group="index", P=P, top=2))
         out.append(dict(group="index", P=P, top=1))
     return out
 
